@@ -498,6 +498,10 @@ DEFS = {
     # the same attribute occurs in BOTH operands of one arithmetic step (a renamed id must be replaced everywhere)
     'repeat': {'d1': ('rep', ['x', 'y']), 'd2': ('sq', ['x', 'x']), 'd3': ('func', ['d1', 'x']),
                'd4': ('binary2', ['d2', 'd3'])},
+    # ONE link object (s = x + y) re-used as the left operand of several wider expressions, as in
+    # `s = d.id['x'] + d.id['y']; d['a'] = s * 2; d['b'] = s / d.id['d1']`: each expression depends on its own inputs only
+    'shared': {'d1': ('binary', ['x', 'p1']), 'd2': ('sh_const', ['x', 'y']), 'd3': ('sh_div', ['x', 'y', 'd1']),
+               'd4': ('sh_sub', ['x', 'y', 'd2'])},
 }
 
 
@@ -543,7 +547,14 @@ class Scenario(object):
         if name in ('p0', 'p1'):
             return np.indices((2, 3))[int(name[1])]
         kind, ins = self.defs[name]
-        a, b = [self.model_value(w, i) for i in ins]
+        vals = [self.model_value(w, i) for i in ins]
+        a, b = vals[:2]
+        if kind == 'sh_const':
+            return (a + b) * 2
+        if kind == 'sh_div':
+            return (a + b) / vals[2]
+        if kind == 'sh_sub':
+            return (a + b) - vals[2]
         if kind == 'binary':
             return a + b * 2
         if kind == 'func':
@@ -597,9 +608,16 @@ class Scenario(object):
             if k == 'add':
                 d = op[1]
                 kind, ins = self.defs[d]
-                a, b = [w.cids[i] for i in ins]
+                a, b = [w.cids[i] for i in ins][:2]
                 label = d
-                if kind == 'binary':
+                if kind.startswith('sh_'):
+                    if getattr(w, 'shared', None) is None:
+                        w.shared = a + b
+                    link = {'sh_const': lambda: w.shared * 2, 'sh_div': lambda: w.shared / w.cids[ins[2]],
+                            'sh_sub': lambda: w.shared - w.cids[ins[2]]}[kind]()
+                    data.add_component_link(link, label)
+                    cid = link.get_to_id()
+                elif kind == 'binary':
                     link = a + b * 2
                     data.add_component_link(link, label)
                     cid = link.get_to_id()
@@ -714,9 +732,11 @@ class Scenario(object):
 def h_tiers(tier):
     if tier == 'quick':
         return [('plain', Scenario('plain', uid_budget=2), 5), ('parsed', Scenario('parsed', uid_budget=2), 5),
-                ('repeat', Scenario('repeat', uid_budget=3), 5)]
+                ('repeat', Scenario('repeat', uid_budget=3), 5),
+                ('shared', Scenario('shared', uid_budget=0, reorders=()), 6)]
     return [('plain', Scenario('plain', uid_budget=2), 7), ('parsed', Scenario('parsed', uid_budget=2), 7),
-            ('repeat', Scenario('repeat', uid_budget=3), 7)]
+            ('repeat', Scenario('repeat', uid_budget=3), 7),
+            ('shared', Scenario('shared', uid_budget=0, reorders=('rev',)), 8)]
 
 
 def _scn_for(label):
